@@ -48,7 +48,7 @@ def check_flag(ctx, num=1):
         if who == "Container.__init__":
             ok = isinstance(w.node, (ast.Assign, ast.AnnAssign)) and isinstance(w.node.value, ast.Constant) and w.node.value.value is False
             ctx.ob(num, "K1", "a new container cannot be suspended (flag starts False)", ok, w.fn, w.node, detail=stmt_text(w.node))
-        elif w.fn.node is gen.node:
+        elif same_fn(w.fn, gen):
             stores.append(w.node)
         else:
             ctx.ob(num, "K1", "_can_suspend is written only by Container.__init__ and the tick generator", False, w.fn, w.node, detail=repr(w))
@@ -248,7 +248,7 @@ def check_duration(ctx, num=3):
         who = w.fn.qual
         if who == "Container.__init__" or w.node in stores:
             continue
-        if w.fn.node is tick.node:
+        if same_fn(w.fn, tick):
             n = w.node
             ok = isinstance(n, ast.AugAssign) and isinstance(n.op, ast.Sub) and isinstance(n.value, ast.Constant) and n.value.value == 1
             byp = gt.path_avoiding(gt.entry.id, {gt.exit.id}, {gt.node_of(n).id})
